@@ -131,6 +131,26 @@ func structural(p []*lib.Node) (out []mutation, dropped int) {
 			add("lift-to-ancestor", fmt.Sprintf("nodes 0..%d replaced by their common ancestor (key bits %q)", j, kb), q)
 		}
 	}
+	// a single node that carries the ROOT hash as its value, under the key of a reserved leaf (all-zero /
+	// all-one bits of the leaf width) or of any node of the proof: with one node nothing is hashed, so
+	// "recomputed root == root" holds trivially; only the length / shape checks stand in the way
+	if steps, ok := refChain(p); ok && len(steps) > 0 {
+		root := steps[len(steps)-1].hash
+		var keys [][]byte
+		if kb, ok := keyBits(p[0].Key); ok && len(kb) > 0 {
+			zero, one := bytes.Repeat([]byte{'0'}, len(kb)), bytes.Repeat([]byte{'1'}, len(kb))
+			keys = append(keys, encodeKey(string(zero)), encodeKey(string(one)))
+		}
+		for i := range p {
+			keys = append(keys, p[i].Key)
+		}
+		for ki, k := range keys {
+			for _, bm := range []int32{0, 1} {
+				add("root-as-single-node", fmt.Sprintf("single node: key candidate %d (%d bytes), value = the root, bitmask %d", ki, len(k), bm),
+					[]*lib.Node{{Key: exact(k), Value: exact(root), Bitmask: bm}})
+			}
+		}
+	}
 	return
 }
 
